@@ -23,7 +23,7 @@ def one(job):
             return job, [("apply", "FAILED", r.stderr[:200])]
         evd = tempfile.mkdtemp(prefix="ev.", dir="/tmp")
         env = dict(os.environ, VERIF_REPO=wt, VERIF_EVIDENCE_DIR=evd)
-        for p in (ALL if USE_ALL else AREA[area]):
+        for p in (os.environ["REFCHECK_PROPS"].split(",") if os.environ.get("REFCHECK_PROPS") else (ALL if USE_ALL else AREA[area])):
             r = subprocess.run([os.path.join(VERIF, "check"), p], env=env, capture_output=True, text=True)
             lines = r.stdout.splitlines()
             v = [l for l in lines if l.startswith("VIOLATION")]
